@@ -54,10 +54,13 @@ def handler_catches_exception(h: ast.ExceptHandler) -> bool:
 
 
 def handler_routes(h: ast.ExceptHandler) -> bool:
+    """The handler delivers THE exception it caught (`except ... as e: observer.on_error(e)`), or re-raises."""
     for n in ast.walk(h):
         if isinstance(n, ast.Call):
             nm = call_name(n)
             if nm in ("on_error", "throw", "fail", "set_exception"):
+                if h.name and n.args and not any(isinstance(x, ast.Name) and x.id == h.name for a in n.args for x in ast.walk(a)):
+                    continue        # routes something else (a stale state variable, None): the caught exception itself is lost
                 return True
         if isinstance(n, ast.Raise):
             return True     # re-raised: not swallowed (an outer handler / fail() sees it)
